@@ -73,6 +73,19 @@ Theorem C11_multipart_iff_upload : forall t p files fmap,
 Proof. exact files_empty_iff. Qed.
 Print Assumptions C11_multipart_iff_upload.
 
+(* ---- the multipart map as a bijection: the file parts (name, Upload) pair every distinct Upload object
+   with exactly one part and every part name with exactly one Upload (decimal names are injective:
+   nat_to_string_inj), parts carry only Uploads of the tree, and the part names are the keys of the map, in
+   the same order — so map key i <-> part i <-> i-th distinct Upload <-> all its paths (C11_map_entries) ---- *)
+Theorem C11_parts_bijection : forall ups files, NoDup files ->
+  (forall id, In id files -> exists name, In (name, id) (files_parts files) /\
+      forall name', In (name', id) (files_parts files) -> name' = name) /\
+  (forall name id id', In (name, id) (files_parts files) -> In (name, id') (files_parts files) -> id = id') /\
+  (forall name id, In (name, id) (files_parts files) -> In id files) /\
+  map fst (files_parts files) = map (fun e => nat_to_string (fst e)) (expected_map ups files 0).
+Proof. exact parts_bijection. Qed.
+Print Assumptions C11_parts_bijection.
+
 (* ---- headers (merge of /repo 7378d1f; finding F20 fixed, guard deleted) ---- *)
 (* the caller's value wins for every header he supplies, whatever its letter case: on the wire
    (names case-insensitive) that name carries exactly his value.  Hypotheses: the caller's dict has
